@@ -171,7 +171,8 @@ def check_module(ctx, source: str, funcs, only_func=None, only_args=None, kwargs
                     except Exception:  # noqa: BLE001
                         vsrc = None
                     ctx.violation(key, what, {"source": source, "func": name, "params": [[p, ty.render(t_)] for p, t_ in params],
-                                              "args": [a.src for a in args], "value": vsrc, "node": ast.unparse(node), "where": where})
+                                              "args": [a.src for a in args], "value": vsrc, "node": ast.unparse(node), "where": where,
+                                              "lineno": node.lineno})
         for k, entry in enumerate(ins.table):
             if entry is not None and ins.nodes[k] is not None:
                 ctx.histo("node_x_valueclass", f"{type(ins.nodes[k]).__name__}:{type(entry[1]).__name__}")
@@ -282,7 +283,7 @@ def _cross_type_equal(minsrc: str, fname: str, args) -> bool:
     return False
 
 
-def mechanism_key(minkey: str, minsrc: str, fname: str, params=None, args=None, node_src=None) -> str:
+def mechanism_key(minkey: str, minsrc: str, fname: str, params=None, args=None, node_src=None, lineno=None) -> str:
     parts = minkey.split("|")
     node, mismatch = parts[0], parts[-1]
     if mismatch.endswith("not in Never"):
@@ -293,11 +294,72 @@ def mechanism_key(minkey: str, minsrc: str, fname: str, params=None, args=None, 
         return "truthiness|falsy-member-of-type-assumed-always-true"
     if args is not None and _cross_type_equal(minsrc, fname, args):
         return "equality-narrowing|argument-equals-literal-of-other-type"
+    if node_src and lineno and _composite_read_after_branch_that_assigned_it(minsrc, fname, node_src, lineno):
+        return "composite|x[const]-after-a-branch-that-assigned-it-forgets-the-path-that-did-not"
+    if node in ("Name", "Subscript") and node_src and _item_assigned(minsrc, fname, node_src):
+        return "mutation|container-variable-keeps-its-value-from-before-an-item-assignment"
     if node_src and _stale_composite_in_loop(minsrc, fname, node_src):
         return "loop|value-of-x[const]-kept-from-first-pass-although-x-is-reassigned-in-the-loop"
     if node_src and any(_loop_carried(minsrc, fname, n.id) for n in ast.walk(ast.parse(node_src, mode="eval")) if isinstance(n, ast.Name)):
         return "loop|value-carried-around-the-loop-is-analysed-with-two-passes-only"
     return f"{node}|{mismatch}|needs:{feats}"
+
+
+def _composite_root(expr):
+    """x[0]['a'].b -> 'x' when every step is a constant subscript or an attribute, else None."""
+    steps = 0
+    while isinstance(expr, (ast.Subscript, ast.Attribute)):
+        if isinstance(expr, ast.Subscript):
+            sl = expr.slice
+            if not (isinstance(sl, ast.Constant) or (isinstance(sl, ast.UnaryOp) and isinstance(sl.operand, ast.Constant))):
+                return None
+        expr = expr.value
+        steps += 1
+    return expr.id if isinstance(expr, ast.Name) and steps else None
+
+
+def _composite_read_after_branch_that_assigned_it(minsrc: str, fname: str, node_src: str, lineno: int) -> bool:
+    """The violating node reads a composite `x[const]...` AFTER a compound statement in which x (or a part of x) is
+    assigned on some path only: at the merge pyanalyze keeps the composite's value from the assigning path and drops
+    the path on which it was left alone."""
+    expr = ast.parse(node_src, mode="eval").body
+    roots = {r for r in (_composite_root(n) for n in ast.walk(expr)) if r}
+    if not roots:
+        return False
+    tree = ast.parse(minsrc)
+    fn = next(n for n in tree.body if isinstance(n, ast.FunctionDef) and n.name == fname)
+    for st in ast.walk(fn):
+        if not isinstance(st, (ast.If, ast.For, ast.While, ast.Try, ast.Match, ast.With)):
+            continue
+        if not (st.end_lineno < lineno):
+            continue
+        for sub in ast.walk(st):
+            if isinstance(sub, (ast.Name, ast.Subscript, ast.Attribute)) and isinstance(getattr(sub, "ctx", None), ast.Store):
+                base = sub
+                while isinstance(base, (ast.Subscript, ast.Attribute)):
+                    base = base.value
+                if isinstance(base, ast.Name) and base.id in roots:
+                    return True
+    return False
+
+
+def _item_assigned(minsrc: str, fname: str, var: str) -> bool:
+    """`var[...] = ...` (possibly nested) occurs in the minimal program and the violating node is `var` itself — a bare
+    name or a subscript path that is a proper prefix of the assigned target: pyanalyze keeps the value it inferred for
+    the container before one of its items was assigned."""
+    tree = ast.parse(minsrc)
+    fn = next(n for n in tree.body if isinstance(n, ast.FunctionDef) and n.name == fname)
+    for node in ast.walk(fn):
+        if isinstance(node, ast.Subscript) and isinstance(node.ctx, ast.Store):
+            base = node.value
+            while True:
+                if ast.unparse(base) == var:
+                    return True
+                if isinstance(base, ast.Subscript):
+                    base = base.value
+                else:
+                    break
+    return False
 
 
 def _stale_composite_in_loop(minsrc: str, fname: str, node_src: str) -> bool:
@@ -397,7 +459,8 @@ def report(ctx, w, rawkey: str, occurrences: int = 1):
         ctx.note(f"not reproducible in isolation: {rawkey}")
         return
     extra = [hit["witness"]["value"]] if hit.get("witness", {}).get("value") else []
-    key = mechanism_key(minkey, minsrc, w["func"], params, list(w["args"]) + extra, hit.get("witness", {}).get("node"))
+    key = mechanism_key(minkey, minsrc, w["func"], params, list(w["args"]) + extra, hit.get("witness", {}).get("node"),
+                        hit.get("witness", {}).get("lineno"))
     w2 = dict(w)
     w2["source"] = minsrc
     what = hit["what"] + "\n--- minimal program ---\n" + function_source(minsrc, w["func"])
